@@ -11,27 +11,28 @@ open Scales.Transport
 
 /-- a closed transport has no live loop and no ping helper; only an Open transport has
     requests in its tag map -/
-def Inv (s : St) : Prop :=
+def Inv0 (s : St) : Prop :=
   (s.cstate = .closed → s.sl = .dead ∧ s.rl = .dead ∧ s.pingWait = false) ∧
   (s.cstate ≠ .opened → s.tagMap = [])
 
-theorem inv_init : Inv St.init := by simp [Inv, St.init]
+theorem inv0_init : Inv0 St.init := by simp [Inv0, St.init]
 
 theorem shutdown_eq (s : St) (b : Bool) (h : s.cstate ≠ .closed) :
     s.shutdown b =
       ({ cstate := .closed, hasOpenResult := false, opening := false,
          openRes := if s.openRes = .pending then .failed else s.openRes,
-         tagMap := [], sendQ := [], sl := .dead, rl := .dead, pingLoop := false, pingWait := false },
+         tagMap := [], sendQ := [], sl := .dead, rl := .dead, pingLoop := false, pingWait := false,
+         pending := s.pending },
        { faults := if b then 1 else 0, dels := s.tagMap.map (fun p => (p.2, Resp.cerr)) }) := by
   simp [St.shutdown, h]
 
 theorem shutdown_closed (s : St) (b : Bool) (h : s.cstate = .closed) : s.shutdown b = (s, {}) := by
   simp [St.shutdown, h]
 
-theorem inv_shutdown (s : St) (b : Bool) (h : Inv s) : Inv (s.shutdown b).1 := by
+theorem inv0_shutdown (s : St) (b : Bool) (h : Inv0 s) : Inv0 (s.shutdown b).1 := by
   by_cases hc : s.cstate = .closed
   · rw [shutdown_closed s b hc]; exact h
-  · rw [shutdown_eq s b hc]; simp [Inv]
+  · rw [shutdown_eq s b hc]; simp [Inv0]
 
 @[simp] theorem pump_cstate (s : St) : s.pump.cstate = s.cstate := by
   unfold St.pump; split <;> rfl
@@ -47,26 +48,252 @@ theorem inv_shutdown (s : St) (b : Bool) (h : Inv s) : Inv (s.shutdown b).1 := b
 theorem pump_sl_dead (s : St) (h : s.sl = .dead) : s.pump.sl = .dead := by
   unfold St.pump; split <;> simp_all
 
-theorem inv_pump (s : St) (h : Inv s) (hc : s.cstate ≠ .closed) : Inv s.pump := by
-  simp only [Inv, pump_cstate, pump_tagMap, pump_rl, pump_pingWait]
+theorem inv0_pump (s : St) (h : Inv0 s) (hc : s.cstate ≠ .closed) : Inv0 s.pump := by
+  simp only [Inv0, pump_cstate, pump_tagMap, pump_rl, pump_pingWait]
   exact ⟨fun e => absurd e hc, h.2⟩
 
-theorem inv_step (s : St) (op : Op) (h : Inv s) : Inv (stepOut s op).1 := by
+/-! ### the receive loop's reads and the pending `_ProcessReply` greenlets -/
+
+@[simp] theorem shutdown_pending (s : St) (b : Bool) : (s.shutdown b).1.pending = s.pending := by
+  unfold St.shutdown; split <;> rfl
+
+theorem rdMany_cons (s : St) (o : IOOut) (f : Frame) (rest : List (IOOut × Frame)) :
+    s.rdMany ((o, f) :: rest) =
+      (((s.rdRaw o f).1.rdMany rest).1,
+       { faults := (s.rdRaw o f).2.faults + ((s.rdRaw o f).1.rdMany rest).2.faults,
+         dels := (s.rdRaw o f).2.dels ++ ((s.rdRaw o f).1.rdMany rest).2.dels,
+         conns := (s.rdRaw o f).2.conns + ((s.rdRaw o f).1.rdMany rest).2.conns }) := rfl
+
+theorem rdRaw_dead (s : St) (o : IOOut) (f : Frame) (h : s.rl = .dead) : s.rdRaw o f = (s, {}) := by
+  simp [St.rdRaw, h]
+
+theorem rdRaw_hdr_ok (s : St) (f : Frame) (h : s.rl = .hdr) :
+    s.rdRaw .ok f = ({ s with rl := .body }, {}) := by
+  simp [St.rdRaw, h]
+
+theorem rdRaw_body_ok (s : St) (f : Frame) (h : s.rl = .body) :
+    s.rdRaw .ok f = ({ s with rl := .hdr, pending := s.pending ++ [f] }, {}) := by
+  simp [St.rdRaw, h]
+
+theorem rdRaw_fault (s : St) (o : IOOut) (f : Frame) (h : s.rl ≠ .dead) (ho : o ≠ .ok) :
+    s.rdRaw o f = s.shutdown true := by
+  cases hr : s.rl with
+  | dead => exact absurd hr h
+  | hdr => cases o <;> simp_all [St.rdRaw]
+  | body => cases o <;> simp_all [St.rdRaw]
+
+/-- reads on a dead receive loop do not happen -/
+theorem rdMany_dead : ∀ (rs : List (IOOut × Frame)) (s : St), s.rl = .dead → s.rdMany rs = (s, {}) := by
+  intro rs
+  induction rs with
+  | nil => intros; rfl
+  | cons r rest ih =>
+    intro s h
+    obtain ⟨o, f⟩ := r
+    rw [rdMany_cons, rdRaw_dead s o f h, ih s h]
+    rfl
+
+/-- successful reads only move the receive loop between header and body and spawn
+    `_ProcessReply` greenlets -/
+theorem rdMany_ok : ∀ (rs : List (IOOut × Frame)) (s : St), s.rl ≠ .dead →
+    (∀ r ∈ rs, r.1 = IOOut.ok) →
+    ∃ r' p', r' ≠ RL.dead ∧ s.rdMany rs = (({ s with rl := r', pending := p' } : St), ({} : Eff)) := by
+  intro rs
+  induction rs with
+  | nil => intro s h _; exact ⟨s.rl, s.pending, h, rfl⟩
+  | cons r rest ih =>
+    intro s h hall
+    obtain ⟨o, f⟩ := r
+    have ho : o = .ok := hall (o, f) (by simp)
+    subst ho
+    have hrest : ∀ r ∈ rest, r.1 = IOOut.ok := fun r hr => hall r (List.mem_cons_of_mem _ hr)
+    cases hr : s.rl with
+    | dead => exact absurd hr h
+    | hdr =>
+      obtain ⟨r', p', h1, h2⟩ := ih ({ s with rl := .body } : St) (by simp) hrest
+      refine ⟨r', p', h1, ?_⟩
+      rw [rdMany_cons, rdRaw_hdr_ok s f hr, h2]
+      rfl
+    | body =>
+      obtain ⟨r', p', h1, h2⟩ :=
+        ih ({ s with rl := .hdr, pending := s.pending ++ [f] } : St) (by simp) hrest
+      refine ⟨r', p', h1, ?_⟩
+      rw [rdMany_cons, rdRaw_body_ok s f hr, h2]
+      rfl
+
+/-- a failing read among them is a `_Shutdown` of the transport as the reads before it left it;
+    the reads behind it do not happen -/
+theorem rdMany_fault : ∀ (rs : List (IOOut × Frame)) (s : St), s.rl ≠ .dead → s.cstate ≠ .closed →
+    (∃ r ∈ rs, r.1 ≠ IOOut.ok) →
+    ∃ r' p', r' ≠ RL.dead ∧ s.rdMany rs = ({ s with rl := r', pending := p' } : St).shutdown true := by
+  intro rs
+  induction rs with
+  | nil => intro s _ _ h; obtain ⟨r, hr, _⟩ := h; simp at hr
+  | cons r rest ih =>
+    intro s h hc hex
+    obtain ⟨o, f⟩ := r
+    by_cases ho : o = .ok
+    · subst ho
+      have hrest : ∃ r ∈ rest, r.1 ≠ IOOut.ok := by
+        obtain ⟨r, hr, hne⟩ := hex
+        rcases List.mem_cons.mp hr with e | e
+        · subst e; exact absurd rfl hne
+        · exact ⟨r, e, hne⟩
+      cases hr : s.rl with
+      | dead => exact absurd hr h
+      | hdr =>
+        obtain ⟨r', p', h1, h2⟩ := ih ({ s with rl := .body } : St) (by simp) hc hrest
+        refine ⟨r', p', h1, ?_⟩
+        rw [rdMany_cons, rdRaw_hdr_ok s f hr, h2]
+        cases hsd : (({ s with rl := r', pending := p' } : St).shutdown true) with
+        | mk s2 e2 => cases e2; simp
+      | body =>
+        obtain ⟨r', p', h1, h2⟩ :=
+          ih ({ s with rl := .hdr, pending := s.pending ++ [f] } : St) (by simp) hc hrest
+        refine ⟨r', p', h1, ?_⟩
+        rw [rdMany_cons, rdRaw_body_ok s f hr, h2]
+        cases hsd : (({ s with rl := r', pending := p' } : St).shutdown true) with
+        | mk s2 e2 => cases e2; simp
+    · refine ⟨s.rl, s.pending, h, ?_⟩
+      have hdead : (s.shutdown true).1.rl = .dead := by rw [shutdown_eq s true hc]
+      rw [rdMany_cons, rdRaw_fault s o f h ho, rdMany_dead rest _ hdead]
+      cases hsd : s.shutdown true with
+      | mk s2 e2 => cases e2; simp
+
+/-- a `_ProcessReply` greenlet that runs on a closed transport finds no ping to answer and an
+    empty tag map: it delivers nothing and changes nothing -/
+theorem process_closed (s : St) (f : Frame) (h : Inv0 s) (hc : s.cstate = .closed) :
+    s.process f = (s, {}) := by
+  have hpw := (h.1 hc).2.2
+  have htm := h.2 (by rw [hc]; simp)
+  cases f <;> simp [St.process, hpw, htm]
+
+theorem dispatchGo_closed : ∀ (fs : List Frame) (s : St), Inv0 s → s.cstate = .closed →
+    dispatchGo fs s = (s, []) := by
+  intro fs
+  induction fs with
+  | nil => intros; rfl
+  | cons f fs ih =>
+    intro s h hc
+    simp [dispatchGo, process_closed s f h hc, ih s h hc]
+
+theorem process_pending (s : St) (f : Frame) : (s.process f).1.pending = s.pending := by
+  cases f with
+  | junk => rfl
+  | rping =>
+    simp only [St.process]
+    split
+    · split <;> rfl
+    · rfl
+  | reply tag => simp only [St.process]; split <;> rfl
+
+theorem inv0_process (s : St) (f : Frame) (h : Inv0 s) : Inv0 (s.process f).1 := by
+  cases f with
+  | junk => exact h
+  | rping =>
+    simp only [St.process]
+    split
+    · split
+      · simp [Inv0]
+      · simp only [Inv0]
+        exact ⟨fun e => ⟨(h.1 e).1, (h.1 e).2.1, by trivial⟩, h.2⟩
+    · exact h
+  | reply tag =>
+    simp only [St.process]
+    split
+    · simp only [Inv0]
+      refine ⟨h.1, fun e => ?_⟩
+      rw [h.2 e]; rfl
+    · exact h
+
+theorem dispatchGo_pending : ∀ (fs : List Frame) (s : St), (dispatchGo fs s).1.pending = s.pending := by
+  intro fs
+  induction fs with
+  | nil => intros; rfl
+  | cons f fs ih =>
+    intro s
+    simp only [dispatchGo]
+    rw [ih, process_pending]
+
+theorem inv0_dispatchGo : ∀ (fs : List Frame) (s : St), Inv0 s → Inv0 (dispatchGo fs s).1 := by
+  intro fs
+  induction fs with
+  | nil => intro s h; exact h
+  | cons f fs ih =>
+    intro s h
+    simp only [dispatchGo]
+    exact ih _ (inv0_process s f h)
+
+theorem inv0_rl (s : St) (r : RL) (p : List Frame) (h : Inv0 s) (hc : s.cstate ≠ .closed) :
+    Inv0 ({ s with rl := r, pending := p } : St) := by
+  simp only [Inv0]
+  exact ⟨fun e => absurd e hc, h.2⟩
+
+/-- a burst without a failing read: the frames it completed, and those still pending, are
+    dispatched in order -/
+theorem burst_ok (s : St) (rs : List (IOOut × Frame)) (hrl : s.rl ≠ .dead)
+    (hall : ∀ r ∈ rs, r.1 = IOOut.ok) :
+    ∃ r' p', r' ≠ RL.dead ∧
+      s.burst rs = ((dispatchGo p' ({ s with rl := r', pending := [] } : St)).1,
+                    { eff := { dels := (dispatchGo p' ({ s with rl := r', pending := [] } : St)).2 } }) := by
+  obtain ⟨r', p', h1, h2⟩ := rdMany_ok rs s hrl hall
+  exact ⟨r', p', h1, by simp [St.burst, h2, St.dispatch]⟩
+
+/-- a burst with a failing read is one `_Shutdown`: the `_ProcessReply` greenlets of the frames
+    read before it run afterwards and are dropped -/
+theorem burst_fault (s : St) (rs : List (IOOut × Frame)) (hinv : Inv0 s) (hrl : s.rl ≠ .dead)
+    (hex : ∃ r ∈ rs, r.1 ≠ IOOut.ok) :
+    ∃ r', r' ≠ RL.dead ∧
+      s.burst rs = ((({ s with rl := r', pending := [] } : St).shutdown true).1,
+                    { eff := (({ s with rl := r', pending := [] } : St).shutdown true).2 }) := by
+  have hc : s.cstate ≠ .closed := fun e => hrl (hinv.1 e).2.1
+  obtain ⟨r', p', h1, h2⟩ := rdMany_fault rs s hrl hc hex
+  refine ⟨r', h1, ?_⟩
+  have hc1 : ({ s with rl := r', pending := p' } : St).cstate ≠ .closed := hc
+  have hc2 : ({ s with rl := r', pending := [] } : St).cstate ≠ .closed := hc
+  simp only [St.burst, h2, St.dispatch]
+  rw [shutdown_eq _ true hc1, shutdown_eq _ true hc2]
+  simp only
+  rw [dispatchGo_closed _ _ (by simp [Inv0]) rfl]
+  simp
+
+theorem inv0_burst (s : St) (rs : List (IOOut × Frame)) (h : Inv0 s) : Inv0 (s.burst rs).1 := by
+  by_cases hrl : s.rl = .dead
+  · simp only [St.burst, rdMany_dead rs s hrl, St.dispatch]
+    apply inv0_dispatchGo
+    simp only [Inv0]; exact h
+  · have hc : s.cstate ≠ .closed := fun e => hrl (h.1 e).2.1
+    by_cases hex : ∃ r ∈ rs, r.1 ≠ IOOut.ok
+    · obtain ⟨r', _, h2⟩ := burst_fault s rs h hrl hex
+      rw [h2]
+      exact inv0_shutdown _ true (inv0_rl s r' [] h hc)
+    · have hall : ∀ r ∈ rs, r.1 = IOOut.ok :=
+        fun r hr => Decidable.byContradiction (fun hne => hex ⟨r, hr, hne⟩)
+      obtain ⟨r', p', _, h2⟩ := burst_ok s rs hrl hall
+      rw [h2]
+      exact inv0_dispatchGo _ _ (inv0_rl s r' [] h hc)
+
+theorem burst_pending (s : St) (rs : List (IOOut × Frame)) : (s.burst rs).1.pending = [] := by
+  simp only [St.burst, St.dispatch]
+  rw [dispatchGo_pending]
+
+
+theorem inv0_step (s : St) (op : Op) (h : Inv0 s) : Inv0 (stepOut s op).1 := by
   cases op with
   | look => exact h
-  | close => exact inv_shutdown s false h
+  | close => exact inv0_shutdown s false h
   | pingSilence =>
     simp only [stepOut, St.pingSilence]
     split
-    · exact inv_shutdown s true h
+    · exact inv0_shutdown s true h
     · exact h
   | pingDue =>
     simp only [stepOut, St.pingDue]
     split
     · rename_i hc
       simp only [Bool.and_eq_true, decide_eq_true_eq] at hc
-      apply inv_pump
-      · simp only [Inv]; rw [hc.2]; simp
+      apply inv0_pump
+      · simp only [Inv0]; rw [hc.2]; simp
       · simp [hc.2]
     · exact h
   | openT r =>
@@ -80,12 +307,12 @@ theorem inv_step (s : St) (op : Op) (h : Inv s) : Inv (stepOut s op).1 := by
         cases r with
         | refuse =>
           simp only
-          apply inv_shutdown
-          simp only [Inv]; rw [hidle]; simp; exact h.2 (by rw [hidle]; simp)
+          apply inv0_shutdown
+          simp only [Inv0]; rw [hidle]; simp; exact h.2 (by rw [hidle]; simp)
         | ok =>
           simp only
-          apply inv_pump
-          · simp only [Inv]; rw [hidle]; simp
+          apply inv0_pump
+          · simp only [Inv0]; rw [hidle]; simp
           · simp [hidle]
   | req id tag =>
     simp only [stepOut, St.request]
@@ -93,8 +320,8 @@ theorem inv_step (s : St) (op : Op) (h : Inv s) : Inv (stepOut s op).1 := by
     · exact h
     · split
       · rename_i hc
-        apply inv_pump
-        · simp only [Inv]; rw [hc]; simp
+        apply inv0_pump
+        · simp only [Inv0]; rw [hc]; simp
         · simp [hc]
       · exact h
   | wr o =>
@@ -106,49 +333,67 @@ theorem inv_step (s : St) (op : Op) (h : Inv s) : Inv (stepOut s op).1 := by
       cases o with
       | ok =>
         simp only
-        apply inv_pump
-        · simp only [Inv]
+        apply inv0_pump
+        · simp only [Inv0]
           exact ⟨fun e => absurd e hc, h.2⟩
         · exact hc
-      | raise => exact inv_shutdown s true h
-      | eof => exact inv_shutdown s true h
+      | raise => exact inv0_shutdown s true h
+      | eof => exact inv0_shutdown s true h
     · exact h
-  | rd o f =>
-    simp only [stepOut, St.rd]
+  | rd o f => exact inv0_burst s _ h
+  | burst rs => exact inv0_burst s rs h
+
+
+/-- the invariant of the transport between two operations: a closed transport has no live loop
+    and no ping helper; only an Open transport has requests in its tag map; and no
+    `_ProcessReply` greenlet is pending (every operation ends with a drain) -/
+def Inv (s : St) : Prop := Inv0 s ∧ s.pending = []
+
+theorem inv_init : Inv St.init := ⟨inv0_init, rfl⟩
+
+@[simp] theorem pump_pending (s : St) : s.pump.pending = s.pending := by
+  unfold St.pump; split <;> rfl
+
+theorem step_pending (s : St) (op : Op) (h : s.pending = []) : (stepOut s op).1.pending = [] := by
+  cases op with
+  | look => exact h
+  | close => simpa [stepOut, St.close] using h
+  | pingSilence =>
+    simp only [stepOut, St.pingSilence]
+    split
+    · simpa using h
+    · exact h
+  | pingDue =>
+    simp only [stepOut, St.pingDue]
+    split
+    · simpa using h
+    · exact h
+  | openT r =>
+    simp only [stepOut, St.openT]
     split
     · exact h
-    · rename_i hrl
-      have hc : s.cstate ≠ .closed := by
-        intro e; have := (h.1 e).2.1; rw [hrl] at this; cases this
-      cases o with
-      | ok => simp only [Inv]; exact ⟨fun e => absurd e hc, h.2⟩
-      | raise => exact inv_shutdown s true h
-      | eof => exact inv_shutdown s true h
-    · rename_i hrl
-      have hc : s.cstate ≠ .closed := by
-        intro e; have := (h.1 e).2.1; rw [hrl] at this; cases this
-      cases o with
-      | raise => exact inv_shutdown s true h
-      | eof => exact inv_shutdown s true h
-      | ok =>
-        simp only
-        cases f with
-        | junk => simp only [St.process, Inv]; exact ⟨fun e => absurd e hc, h.2⟩
-        | rping =>
-          simp only [St.process]
-          split
-          · split
-            · simp [Inv]
-            · simp only [Inv]; exact ⟨fun e => absurd e hc, h.2⟩
-          · simp only [Inv]; exact ⟨fun e => absurd e hc, h.2⟩
-        | reply tag =>
-          simp only [St.process]
-          split
-          · simp only [Inv]
-            refine ⟨fun e => absurd e hc, fun e => ?_⟩
-            rw [h.2 e]; rfl
-          · simp only [Inv]; exact ⟨fun e => absurd e hc, h.2⟩
+    · split
+      · exact h
+      · cases r with
+        | refuse => simpa using h
+        | ok => simpa using h
+  | req id tag =>
+    simp only [stepOut, St.request]
+    split
+    · exact h
+    · split
+      · simpa using h
+      · exact h
+  | wr o =>
+    simp only [stepOut, St.wr]
+    split
+    · cases o <;> simpa using h
+    · exact h
+  | rd o f => exact burst_pending s _
+  | burst rs => exact burst_pending s rs
 
+theorem inv_step (s : St) (op : Op) (h : Inv s) : Inv (stepOut s op).1 :=
+  ⟨inv0_step s op h.1, step_pending s op h.2⟩
 
 /-! ### the simulation relation -/
 
@@ -180,7 +425,7 @@ structure Rel (s : St) (a : Acc) (seen : List Nat) : Prop where
   qnodup : (qIds s).Nodup
   tags : (s.tagMap.map (·.1)).Nodup
   ids : (s.tagMap.map (·.2)).Nodup
-  inv : Inv s
+  inv : Inv0 s
 
 def seenAfter (op : Op) (seen : List Nat) : List Nat :=
   match isReq op with
@@ -188,13 +433,25 @@ def seenAfter (op : Op) (seen : List Nat) : List Nat :=
   | none => seen
 
 theorem rel_init : Rel St.init {} [] := by
-  refine ⟨rfl, rfl, ?_, ?_, ?_, ?_, ?_, ?_, inv_init⟩ <;> simp [St.init, qIds, qItems]
+  refine ⟨rfl, rfl, ?_, ?_, ?_, ?_, ?_, ?_, inv0_init⟩ <;> simp [St.init, qIds, qItems]
 
 /-- an operation that issues nothing and hands out nothing -/
 theorem specStep_quiet (a : Acc) (op : Op) (o : Obs) (hreq : isReq op = none) (hd : o.dels = [])
     (hf : isFailure op o = false) (hc : vCarry a op o = .ok) :
     specStep a op o = (.ok, nextAcc a op o a.owed a.abandoned) := by
   simp [specStep, owedWith, hreq, hd, vFail, hf, hc, Verdict.and]
+
+theorem firstUnfailed_none (op : Op) (owed : List Nat) (dels : List (Nat × Resp))
+    (h : firstNotFailed owed dels = none) : firstUnfailed op owed dels = none := by
+  cases op <;> try exact h
+  simp only [firstUnfailed]
+  unfold firstNotFailed at h
+  rw [List.find?_eq_none] at h ⊢
+  intro id hid
+  have := h id hid
+  simp only [Bool.not_eq_true, Bool.not_eq_false', List.any_eq_true, Bool.and_eq_true] at this ⊢
+  obtain ⟨d, hd, he, _⟩ := this
+  exact ⟨d, hd, he⟩
 
 /-- a shutdown of a transport that was not closed: every request in the tag map is failed -/
 theorem specStep_shutdown (s : St) (a : Acc) (seen : List Nat) (op : Op) (o : Obs) (h : Rel s a seen)
@@ -207,7 +464,8 @@ theorem specStep_shutdown (s : St) (a : Acc) (seen : List Nat) (op : Op) (o : Ob
   have hset : settle (owedWith a op) a.abandoned o.dels = .ok ([], a.abandoned) := by
     simp only [owedWith, hreq, hd, h.owed, hmap]
     exact settle_all _ _ (fun _ => Resp.cerr)
-  have hnf : firstNotFailed (owedWith a op) o.dels = none := by
+  have hnf : firstUnfailed op (owedWith a op) o.dels = none := by
+    apply firstUnfailed_none
     simp only [owedWith, hreq, hd, h.owed, hmap]
     exact firstNotFailed_all _ _ rfl
   have hprev : a.prev ≠ .closed := by rw [h.prev]; exact hc
@@ -224,7 +482,7 @@ theorem rel_closed (s' : St) (a : Acc) (op : Op) (o : Obs) (seen ab : List Nat)
     (hrl : s'.rl = .dead) (hpw : s'.pingWait = false) (ho : o.state = .closed) :
     Rel s' (nextAcc a op o [] ab) seen := by
   refine ⟨?_, ?_, ?_, ?_, ?_, ?_, ?_, ?_, ?_⟩ <;>
-    simp [nextAcc, ht, hc, ho, qIds, qItems, hq, hsl, Inv, hrl, hpw]
+    simp [nextAcc, ht, hc, ho, qIds, qItems, hq, hsl, Inv0, hrl, hpw]
 
 /-- the observable part of a shutdown step -/
 theorem step_shutdown_ok (s : St) (a : Acc) (seen : List Nat) (op : Op) (b : Bool) (c : Nat)
@@ -255,7 +513,7 @@ theorem rel_next (s s' : St) (a : Acc) (op : Op) (o : Obs) (seen : List Nat) (h 
     (hcl : op ≠ .close) (hreq : isReq op = none) (htm : s'.tagMap = s.tagMap)
     (hst : o.state = s'.cstate)
     (hq : ∀ id ∈ qIds s', id ∈ qIds s ∧ sentHas o id = false) (hnd : (qIds s').Nodup)
-    (hinv : Inv s') : Rel s' (nextAcc a op o a.owed a.abandoned) seen := by
+    (hinv : Inv0 s') : Rel s' (nextAcc a op o a.owed a.abandoned) seen := by
   have hu : nextUnsent a op o = a.unsent.filter (fun id => !sentHas o id) := by
     unfold nextUnsent sentHas
     cases op <;> simp_all [isReq]
@@ -311,6 +569,115 @@ theorem erase_lookup (l : List (Nat × Nat)) (tag id : Nat) (ht : (l.map (·.1))
       have hk : (t0 ≠ tag) := fun e3 => e e3.symm
       simp [List.erase_cons, hne, hk, ih ht.2 hi.2 h]
 
+/-! ### dispatching frames, seen from the accumulator of the specification -/
+
+structure DispFacts (s t : St) (d : List (Nat × Resp)) : Prop where
+  settle : ∀ ab, settle (s.tagMap.map (·.2)) ab d = .ok (t.tagMap.map (·.2), ab)
+  tmSub : t.tagMap.Sublist s.tagMap
+  qSub : (qIds t).Sublist (qIds s)
+
+theorem process_facts (s : St) (f : Frame) (ht : (s.tagMap.map (·.1)).Nodup)
+    (hi : (s.tagMap.map (·.2)).Nodup) : DispFacts s (s.process f).1 (s.process f).2.dels := by
+  cases f with
+  | junk => exact ⟨fun ab => by simp [St.process], List.Sublist.refl _, List.Sublist.refl _⟩
+  | rping =>
+    simp only [St.process]
+    split
+    · split
+      · exact ⟨fun ab => by simp, List.Sublist.refl _, List.Sublist.refl _⟩
+      · exact ⟨fun ab => by simp, List.Sublist.refl _, List.Sublist.refl _⟩
+    · exact ⟨fun ab => by simp, List.Sublist.refl _, List.Sublist.refl _⟩
+  | reply tag =>
+    simp only [St.process]
+    cases hl : s.tagMap.lookup tag with
+    | none => exact ⟨fun ab => by simp, List.Sublist.refl _, List.Sublist.refl _⟩
+    | some id =>
+      simp only
+      have hmem : id ∈ s.tagMap.map (·.2) :=
+        List.mem_map_of_mem (f := (·.2)) (lookup_mem _ _ _ hl)
+      have her := erase_lookup s.tagMap tag id ht hi hl
+      refine ⟨fun ab => ?_, List.filter_sublist, ?_⟩
+      · rw [settle_cons_owed _ _ _ _ _ hmem, her]; simp
+      · simp only [qIds, qItems]
+        exact List.Sublist.filterMap _ (List.Sublist.append (List.Sublist.refl _) List.filter_sublist)
+
+theorem dispatch_facts : ∀ (fs : List Frame) (s : St), (s.tagMap.map (·.1)).Nodup →
+    (s.tagMap.map (·.2)).Nodup → DispFacts s (dispatchGo fs s).1 (dispatchGo fs s).2 := by
+  intro fs
+  induction fs with
+  | nil => intro s _ _; exact ⟨fun ab => by simp [dispatchGo], List.Sublist.refl _, List.Sublist.refl _⟩
+  | cons f fs ih =>
+    intro s ht hi
+    have F1 := process_facts s f ht hi
+    have F2 := ih (s.process f).1 (List.Nodup.sublist (List.Sublist.map _ F1.tmSub) ht)
+      (List.Nodup.sublist (List.Sublist.map _ F1.tmSub) hi)
+    simp only [dispatchGo]
+    refine ⟨fun ab => ?_, F2.tmSub.trans F1.tmSub, F2.qSub.trans F1.qSub⟩
+    rw [settle_append _ _ _ _ _ _ (F1.settle ab)]
+    exact F2.settle ab
+
+theorem rel_rl (s : St) (a : Acc) (seen : List Nat) (r : RL) (h : Rel s a seen)
+    (hc : s.cstate ≠ .closed) : Rel ({ s with rl := r, pending := [] } : St) a seen := by
+  obtain ⟨h1, h2, h3, h4, h5, h6, h7, h8, h9⟩ := h
+  exact ⟨h1, h2, h3, h4, h5, h6, h7, h8, inv0_rl s r [] h9 hc⟩
+
+/-- reads of the receive loop, as `rd o f` (`rs = [(o, f)]`) or as `burst rs`: the two operations
+    differ only in the name the specification sees -/
+theorem step_ok_reads (s : St) (a : Acc) (seen : List Nat) (op : Op) (rs : List (IOOut × Frame))
+    (h : Rel s a seen) (hrl : s.rl ≠ .dead) (hreq : isReq op = none) (hcl : op ≠ .close)
+    (hcarry : ∀ o : Obs, vCarry a op o = .ok)
+    (hfail : ∀ o : Obs, isFailure op o = rs.any (fun r => r.1 ≠ .ok))
+    (hun : ∀ o : Obs, nextUnsent a op o =
+      a.unsent.filter (fun id => !(o.sent.any (fun it => itemId it == some id)))) :
+    (specStep a op (obsOf (s.burst rs).1 (s.burst rs).2)).1 = .ok ∧
+    Rel (s.burst rs).1 (specStep a op (obsOf (s.burst rs).1 (s.burst rs).2)).2 seen := by
+  have hc : s.cstate ≠ .closed := fun e => hrl (h.inv.1 e).2.1
+  by_cases hex : ∃ r ∈ rs, r.1 ≠ IOOut.ok
+  · -- a read fails: one `_Shutdown`; the pending `_ProcessReply` greenlets find nothing
+    obtain ⟨r', _, h2⟩ := burst_fault s rs h.inv hrl hex
+    rw [h2]
+    have hc1 : ({ s with rl := r', pending := [] } : St).cstate ≠ .closed := hc
+    have := step_shutdown_ok ({ s with rl := r', pending := [] } : St) a seen op true 0
+      (rel_rl s a seen r' h hc) hc1 hreq (fun _ _ => rfl) hcarry
+    simpa [shutdown_eq _ true hc1] using this
+  · have hall : ∀ r ∈ rs, r.1 = IOOut.ok :=
+      fun r hr => Decidable.byContradiction (fun hne => hex ⟨r, hr, hne⟩)
+    obtain ⟨r', p', _, h2⟩ := burst_ok s rs hrl hall
+    rw [h2]
+    have F := dispatch_facts p' ({ s with rl := r', pending := [] } : St) h.tags h.ids
+    have hinv := inv0_dispatchGo p' _ (inv0_rl s r' [] h.inv hc)
+    generalize dispatchGo p' ({ s with rl := r', pending := [] } : St) = dg at F hinv ⊢
+    obtain ⟨t, d⟩ := dg
+    simp only at F hinv ⊢
+    have hnf : ∀ o : Obs, isFailure op o = false := by
+      intro o
+      rw [hfail o]
+      simp only [List.any_eq_false]
+      intro r hr; simp [hall r hr]
+    have hset : settle (owedWith a op) a.abandoned d = .ok (t.tagMap.map (·.2), a.abandoned) := by
+      simp only [owedWith, hreq, h.owed]; exact F.settle _
+    have hspec : specStep a op (obsOf t { eff := { dels := d } }) =
+        (.ok, nextAcc a op (obsOf t { eff := { dels := d } }) (t.tagMap.map (·.2)) a.abandoned) := by
+      simp [specStep, obsOf, hset, vFail, hnf, hcarry, Verdict.and]
+    rw [hspec]
+    refine ⟨rfl, ?_⟩
+    have hq : ∀ j ∈ qIds t, j ∈ qIds s := fun j hj => F.qSub.subset hj
+    refine ⟨?_, ?_, ?_, ?_, ?_, ?_, ?_, ?_, hinv⟩
+    · simp [nextAcc, hcl]
+    · simp [nextAcc, obsOf]
+    · intro j hj
+      simp only [nextAcc, hun, obsOf, List.any_nil, Bool.not_false]
+      simpa using h.unsent j (hq j hj)
+    · intro j hj
+      simp only [nextAcc, hcl, if_false] at hj
+      apply h.seenO j
+      rw [h.owed]
+      exact (List.Sublist.map _ F.tmSub).subset hj
+    · intro j hj; exact h.seenQ j (hq j hj)
+    · exact List.Nodup.sublist F.qSub h.qnodup
+    · exact List.Nodup.sublist (List.Sublist.map _ F.tmSub) h.tags
+    · exact List.Nodup.sublist (List.Sublist.map _ F.tmSub) h.ids
+
 theorem step_ok (s : St) (a : Acc) (seen : List Nat) (op : Op) (h : Rel s a seen)
     (hen : enabled s seen op = true) :
     (specStep a op (obsOf (stepOut s op).1 (stepOut s op).2)).1 = .ok ∧
@@ -364,8 +731,8 @@ theorem step_ok (s : St) (a : Acc) (seen : List Nat) (op : Op) (h : Rel s a seen
       · simp [obsOf, hidle]
       · intro id hid; rw [qIds_pump] at hid; simp [qIds, qItems] at hid
       · rw [qIds_pump]; simp [qIds, qItems, List.filterMap_cons]
-      · apply inv_pump
-        · simp [Inv, hidle]
+      · apply inv0_pump
+        · simp [Inv0, hidle]
         · simp [hidle]
   | req id tag =>
     simp only [enabled, Bool.and_eq_true, Bool.not_eq_true', Bool.or_eq_true, decide_eq_true_eq] at hen
@@ -429,8 +796,8 @@ theorem step_ok (s : St) (a : Acc) (seen : List Nat) (op : Op) (h : Rel s a seen
         refine ⟨h.ids, by simp, ?_⟩
         intro x hx y hy; simp at hy; subst hy; intro e; subst e
         apply hno; rw [h.owed]; exact hx
-      · apply inv_pump
-        · simp only [Inv]; rw [hop]; simp
+      · apply inv0_pump
+        · simp only [Inv0]; rw [hop]; simp
         · simp [hop]
     · -- rejected on the spot: 'Sink not open'
       have hstep : stepOut s (.req id tag) = (s, { eff := { dels := [(id, .other)] } }) := by
@@ -503,101 +870,17 @@ theorem step_ok (s : St) (a : Acc) (seen : List Nat) (op : Op) (h : Rel s a seen
               exact hnd.1 hid
             simpa using hne
         · rw [hq]; exact (List.nodup_append.mp hnd).2.1
-        · apply inv_pump
-          · simp only [Inv]; exact ⟨fun e => absurd e hc, h.inv.2⟩
+        · apply inv0_pump
+          · simp only [Inv0]; exact ⟨fun e => absurd e hc, h.inv.2⟩
           · exact hc
   | rd o f =>
     have hrl : s.rl ≠ .dead := by simpa [enabled] using hen
-    have hc : s.cstate ≠ .closed := by
-      intro e; exact hrl (h.inv.1 e).2.1
-    have hfail : ∀ o', o' ≠ .ok → stepOut s (.rd o' f) = ((s.shutdown true).1, { eff := (s.shutdown true).2 }) := by
-      intro o' ho'
-      simp only [stepOut, St.rd]
-      cases hr : s.rl with
-      | dead => exact absurd hr hrl
-      | hdr => cases o' <;> simp_all
-      | body => cases o' <;> simp_all
-    -- a quiet step into state `s'` that differs from `s` in no field the relation reads
-    have quiet : ∀ (s' : St) (o : Obs), s'.tagMap = s.tagMap → o.state = s'.cstate → o.dels = [] →
-        o.sent = [] → qIds s' = qIds s → Inv s' →
-        (specStep a (.rd .ok f) o).1 = .ok ∧ Rel s' (specStep a (.rd .ok f) o).2 seen := by
-      intro s' o h1 h2 h3 h4 h5 h6
-      rw [specStep_quiet _ _ _ rfl h3 rfl rfl]
-      refine ⟨rfl, ?_⟩
-      apply rel_next s s' a _ _ seen h (by simp) rfl h1 h2
-      · intro id hid; rw [h5] at hid; exact ⟨hid, by simp [sentHas, h4]⟩
-      · rw [h5]; exact h.qnodup
-      · exact h6
-    have hinv' := inv_step s (.rd .ok f) h.inv
-    cases o with
-    | raise =>
-      have := step_shutdown_ok s a seen (.rd .raise f) true 0 h hc rfl (fun _ _ => rfl) (fun _ => rfl)
-      rw [hfail .raise (by simp)]
-      simpa [shutdown_eq s true hc, seenAfter, isReq] using this
-    | eof =>
-      have := step_shutdown_ok s a seen (.rd .eof f) true 0 h hc rfl (fun _ _ => rfl) (fun _ => rfl)
-      rw [hfail .eof (by simp)]
-      simpa [shutdown_eq s true hc, seenAfter, isReq] using this
-    | ok =>
-      simp only [seenAfter, isReq]
-      cases hr : s.rl with
-      | dead => exact absurd hr hrl
-      | hdr =>
-        simp only [stepOut, St.rd, hr] at hinv' ⊢
-        exact quiet _ _ rfl rfl rfl rfl (by simp [qIds, qItems]) hinv'
-      | body =>
-        simp only [stepOut, St.rd, hr] at hinv' ⊢
-        cases f with
-        | junk =>
-          simp only [St.process] at hinv' ⊢
-          exact quiet _ _ rfl rfl rfl rfl (by simp [qIds, qItems]) hinv'
-        | rping =>
-          simp only [St.process] at hinv' ⊢
-          cases hpw : s.pingWait <;> cases hop : s.opening <;>
-            (simp only [hpw, hop, Bool.false_eq_true, if_true, if_false] at hinv' ⊢
-             exact quiet _ _ rfl rfl rfl rfl (by simp [qIds, qItems]) hinv')
-        | reply tag =>
-          simp only [St.process] at hinv' ⊢
-          cases hl : s.tagMap.lookup tag with
-          | none =>
-            simp only [hl] at hinv' ⊢
-            exact quiet _ _ rfl rfl rfl rfl (by simp [qIds, qItems]) hinv'
-          | some id =>
-            simp only [hl] at hinv' ⊢
-            have hmem : id ∈ a.owed := by
-              rw [h.owed]; exact List.mem_map_of_mem (f := (·.2)) (lookup_mem _ _ _ hl)
-            have her := erase_lookup s.tagMap tag id h.tags h.ids hl
-            have hset : settle (owedWith a (.rd .ok (.reply tag))) a.abandoned [(id, Resp.stream)] =
-                .ok (a.owed.erase id, a.abandoned) := by
-              simp only [owedWith, isReq]
-              rw [settle_cons_owed _ _ _ _ _ hmem]; simp
-            refine ⟨by simp [specStep, obsOf, hset, vFail, isFailure, vCarry, Verdict.and], ?_⟩
-            have hsub : ∀ (g : Nat × Nat → Nat),
-                ((s.tagMap.filter (fun p => p.1 ≠ tag)).map g).Sublist (s.tagMap.map g) :=
-              fun g => List.Sublist.map g List.filter_sublist
-            -- the answered request's frame leaves the send queue: the queue only shrinks
-            have hqsub : ∀ (tm : List (Nat × Nat)),
-                (qIds ({ s with rl := .hdr, tagMap := tm, sendQ := s.sendQ.filter (fun it => it ≠ Item.req tag id) } : St)).Sublist
-                  (qIds s) := by
-              intro tm
-              simp only [qIds, qItems]
-              exact List.Sublist.filterMap _ (List.Sublist.append (List.Sublist.refl _) List.filter_sublist)
-            refine ⟨?_, ?_, ?_, ?_, ?_, ?_, ?_, ?_, hinv'⟩
-            · simp [specStep, obsOf, hset, nextAcc, h.owed, her]
-            · simp [specStep, obsOf, hset, nextAcc]
-            · intro j hj
-              have hj' : j ∈ qIds s := (hqsub _).subset hj
-              simp only [specStep, obsOf, hset, nextAcc, nextUnsent, List.any_nil, Bool.not_false]
-              simpa using h.unsent j hj'
-            · intro j hj
-              simp only [specStep, obsOf, hset, nextAcc] at hj
-              simp only [reduceCtorEq, if_false] at hj
-              exact h.seenO j (List.mem_of_mem_erase hj)
-            · intro j hj
-              exact h.seenQ j ((hqsub _).subset hj)
-            · exact List.Nodup.sublist (hqsub _) h.qnodup
-            · exact List.Nodup.sublist (hsub _) h.tags
-            · exact List.Nodup.sublist (hsub _) h.ids
+    exact step_ok_reads s a seen (.rd o f) [(o, f)] h hrl rfl (by simp) (fun _ => rfl)
+      (fun _ => by cases o <;> simp [isFailure]) (fun _ => rfl)
+  | burst rs =>
+    have hrl : s.rl ≠ .dead := by simpa [enabled] using hen
+    exact step_ok_reads s a seen (.burst rs) rs h hrl rfl (by simp) (fun _ => rfl)
+      (fun _ => rfl) (fun _ => rfl)
   | pingDue =>
     by_cases hcond : (s.pingLoop && !s.pingWait && decide (s.cstate = .opened)) = true
     · simp only [stepOut, St.pingDue, hcond, if_true, seenAfter, isReq]
@@ -612,8 +895,8 @@ theorem step_ok (s : St) (a : Acc) (seen : List Nat) (op : Op) (h : Rel s a seen
       · simp [obsOf]
       · intro id hid; rw [hq] at hid; exact ⟨hid, by simp [sentHas, obsOf]⟩
       · rw [hq]; exact h.qnodup
-      · apply inv_pump
-        · simp only [Inv]; rw [hop]; simp
+      · apply inv0_pump
+        · simp only [Inv0]; rw [hop]; simp
         · simp [hop]
     · simp only [stepOut, St.pingDue, hcond, seenAfter, isReq]
       simp only [Bool.false_eq_true, if_false]
@@ -720,7 +1003,7 @@ theorem issued_le (id : Nat) : ∀ (ops : List Op) (s : St) (seen : List Nat),
 
 
 /-- a connection failure needs a transport that is not closed, and is a shutdown with fault -/
-theorem failure_is_shutdown (s : St) (op : Op) (hinv : Inv s) (hf : connFailure s op = true) :
+theorem failure_is_shutdown (s : St) (op : Op) (hinv : Inv0 s) (hf : connFailure s op = true) :
     s.cstate ≠ .closed ∧ ∃ s1 : St, s1.cstate = s.cstate ∧ s1.tagMap = s.tagMap ∧
       (stepOut s op).1 = (s1.shutdown true).1 ∧
       (stepOut s op).2.eff.faults = (s1.shutdown true).2.faults ∧
@@ -744,12 +1027,22 @@ theorem failure_is_shutdown (s : St) (op : Op) (hinv : Inv s) (hf : connFailure 
     | waitQ => cases o <;> simp [connFailure, hsl] at hf
   | rd o f =>
     have hrl : s.rl ≠ .dead := by cases o <;> simp_all [connFailure]
+    have ho : o ≠ .ok := by intro e; subst e; simp [connFailure] at hf
     have hc : s.cstate ≠ .closed := fun e => hrl (hinv.1 e).2.1
-    refine ⟨hc, s, rfl, rfl, ?_⟩
-    cases hr : s.rl with
-    | dead => exact absurd hr hrl
-    | hdr => cases o <;> simp_all [connFailure, stepOut, St.rd]
-    | body => cases o <;> simp_all [connFailure, stepOut, St.rd]
+    obtain ⟨r', _, h2⟩ := burst_fault s [(o, f)] hinv hrl ⟨(o, f), by simp, ho⟩
+    refine ⟨hc, { s with rl := r', pending := [] }, rfl, rfl, ?_⟩
+    show (s.burst [(o, f)]).1 = _ ∧ (s.burst [(o, f)]).2.eff.faults = _ ∧ (s.burst [(o, f)]).2.eff.dels = _
+    rw [h2]; exact ⟨rfl, rfl, rfl⟩
+  | burst rs =>
+    simp only [connFailure, Bool.and_eq_true, decide_eq_true_eq, List.any_eq_true] at hf
+    obtain ⟨hrl, r, hr, hne⟩ := hf
+    have hrl : s.rl ≠ .dead := by simpa using hrl
+    have hne : r.1 ≠ IOOut.ok := by simpa using hne
+    have hc : s.cstate ≠ .closed := fun e => hrl (hinv.1 e).2.1
+    obtain ⟨r', _, h2⟩ := burst_fault s rs hinv hrl ⟨r, hr, hne⟩
+    refine ⟨hc, { s with rl := r', pending := [] }, rfl, rfl, ?_⟩
+    show (s.burst rs).1 = _ ∧ (s.burst rs).2.eff.faults = _ ∧ (s.burst rs).2.eff.dels = _
+    rw [h2]; exact ⟨rfl, rfl, rfl⟩
   | pingSilence =>
     have hpw : s.pingWait = true := by simpa [connFailure] using hf
     have hc : s.cstate ≠ .closed := by
